@@ -102,7 +102,13 @@ fn gen_unit(rng: &mut Rng, setter: bool) -> Unit {
     let opcode = if setter && rng.chance(2, 3) { *rng.pick(&SETTERS) } else { rng.below(256) as u8 };
     let n = *rng.pick(&[0usize, 1, 1, 2, 2, 3, 3, 4, 5, 6]);
     let mut operands = Vec::new();
-    for _ in 0..n {
+    for k in 0..n {
+        // binary operations meet their worst cases when both operands sit at the same limit
+        if k > 0 && rng.chance(1, 4) {
+            let prev = operands[k - 1];
+            operands.push(prev);
+            continue;
+        }
         operands.push(match rng.below(10) {
             0..=4 => *rng.pick(&EXTREMES),
             // small values: point, zone, cvt, storage and function indices
